@@ -355,6 +355,7 @@ def mut_alphabet(v, seed):
     ops.append(['zfill', L + 2, True])
     ops.append(['assign', t + 'Q'])
     ops.append(['assign', t[:-1]])
+    ops.append(['assign', t[:1]])
     ops.append(['assign', ''])
     ops.append(['assign', 'a-a'])
     ops.append(['simplify'])
